@@ -13,6 +13,7 @@
   * `setSigners_wf` — what ModifySignersTx stores is duplicate free, weights in 1..100, total ≥ 100.
 -/
 import LemoModel.Ledger
+import LemoModel.HashFacts
 namespace LemoProofs.C06
 open LemoModel.Ledger
 
@@ -141,6 +142,24 @@ theorem setSigners_wf (s s' : St) (fr tg : Nat) (l : List (Nat × Nat)) (h : doS
   simp only [decide_eq_true_eq] at this
   have h' : ¬ (x.2 < 1 ∨ x.2 > 100) := this
   omega
+
+/-! ### what the signatures cover (over the regenerated / checked table `LemoModel.HashFacts.expected`) -/
+
+open LemoModel.HashFacts in
+/-- **tamper_invalidates** (table part): every content field of a transaction is an input of the hash
+    the SENDER signs — directly for an ordinary tx; for a reimbursed tx every content field except the
+    two gas terms, and those are inputs of the hash the GAS PAYER signs, which also takes the sender's
+    signatures as input (so the payer's authorisation is bound to this very sender authorisation).
+    `GasUsed` and the signature lists are in no signing hash; the tx id covers everything but `GasUsed`.
+    That a changed hash input changes Keccak's output / the recovered signer is the cryptographic
+    assumption; the harness's tamper stream exercises it on the real code. -/
+theorem tamper_invalidates :
+    (∀ f ∈ content, covers "DefaultSigner" f = true) ∧
+    (∀ f ∈ content, f ∈ gasTerms ∨ covers "ReimbursementTxSigner" f = true) ∧
+    (∀ f ∈ gasTerms, covers "GasPayerSigner" f = true) ∧ covers "GasPayerSigner" "Sigs" = true ∧
+    (∀ fn ∈ ["DefaultSigner", "ReimbursementTxSigner", "GasPayerSigner"], covers fn "GasUsed" = false ∧ covers fn "GasPayerSigs" = false) ∧
+    (∀ f ∈ fields, f = "GasUsed" ∨ covers "Transaction" f = true) := by
+  decide
 
 /-! non-vacuity -/
 example : checkSigners true { signers := [(7, 50), (8, 50)] } 1 (some [8, 7]) = none := by decide
